@@ -12,6 +12,7 @@ either way (off-by-one conventions are not the property).
 
 from __future__ import annotations
 
+import json
 from typing import Any
 
 from hypothesis import HealthCheck, Phase, given, seed as hseed, settings, strategies as st
@@ -124,6 +125,46 @@ def shard_grid(prop: str, tier: str, seed: int, ks: list[int]) -> dict[str, Any]
     return c.export()
 
 
+def shard_commits(prop: str, tier: str, seed: int, k: int) -> dict[str, Any]:
+    """The mechanism named by the property - the progress is stored in the same commit as the retry message - read off
+    every durable state of the run: whenever a retry RunTask carrying attempt number a is queued, the stored progress is the
+    progress of a failures; and the same for a task that polls (RUNNING result): its saved context is durable with the re-poll."""
+    import sqlite3
+
+    from vlib.engine_k import crash_states
+
+    c = Campaign(prop, tier, seed, LEVEL)
+    for prog in PROGS:
+        for rs in ("bare", "from"):
+            spec = make_spec(k, True, 0, 1, "chain", 0, raise_style=rs, prog=prog)
+            states = crash_states(spec)
+            bad = None
+            checked = 0
+            for cs in states:
+                con = sqlite3.connect(":memory:")
+                try:
+                    con.deserialize(cs["blob"])
+                    ctx = json.loads((con.execute("SELECT context FROM stage_executions WHERE id = 'W1-f'").fetchone() or ["{}"])[0] or "{}")
+                    have = _count(ctx.get("_prog0", 0))
+                    for (payload,) in con.execute("SELECT payload FROM queue_messages WHERE message_type = 'RunTask'"):
+                        pl = json.loads(payload)
+                        if pl.get("stage_id") != "W1-f":
+                            continue
+                        a = int(pl.get("attempts") or 0)
+                        checked += 1
+                        if a >= 1 and have < min(a, k) and bad is None:
+                            bad = (cs["index"], a, have)
+                finally:
+                    con.close()
+            case = {"kind": "commits", "spec": spec}
+            if bad:
+                c.violation("retry-durable-without-progress", case,
+                            f"after commit {bad[0]} a retry RunTask with attempts={bad[1]} is queued while the stored progress is {bad[2]}: the progress attached to the failure is not in the commit that queues the retry")
+            c.case(("c14c", spec["name"]), k >= 2, ["commit-points", f"k:{k}", f"prog:{prog}"],
+                   sample={"spec": spec["name"], "commit_points": len(states), "retry_messages_seen": checked} if k >= 2 and prog == "int" else None)
+    return c.export()
+
+
 def shard_random(prop: str, tier: str, seed: int, n: int) -> dict[str, Any]:
     c = Campaign(prop, tier, seed, LEVEL)
 
@@ -150,10 +191,12 @@ def _dispatch(fn, a):  # noqa: ANN001
 def run(c: Campaign, jobs: int) -> None:
     ks = [-1] + list(range(0, LIMIT + 4))
     args = [(shard_grid, (c.prop, c.tier, c.seed, [k])) for k in ks]
+    args += [(shard_commits, (c.prop, c.tier, c.seed, k)) for k in (1, 2, 3, 5)]
     n = 480 if c.tier == "quick" else 20000
     shards = max(1, jobs)
     args += [(shard_random, (c.prop, c.tier, c.seed * 1000 + i, max(1, n // shards))) for i in range(shards)]
     run_shards(c, _dispatch, args, jobs)
+    c.exhaustive_parts.append("every commit point of the FIFO run for k in {1,2,3,5} x 4 progress shapes x 2 raise styles: a queued retry never precedes its progress")
     c.exhaustive_parts.append("FIFO grid: k in {forever, 0..13} x {with, without context_update} x task position {1 of 1, 1/2/3 of 3} x {chain, join}")
     c.rule = ("case = (k transient failures, context_update on/off, how the error is raised (bare / 'from' a low-level error / cause=), task position, stage placement, polling sibling task, schedule). "
               "Non-trivial = k >= 2 or forever. Distinct = hash of (spec name, schedule).")
@@ -170,6 +213,10 @@ def run(c: Campaign, jobs: int) -> None:
 
 def regress(c: Campaign, rec: dict[str, Any]) -> None:
     case = rec["case"]
+    if case.get("kind") == "commits":
+        r = shard_commits(c.prop, c.tier, c.seed, case["spec"]["c14"]["k"])
+        c.merge(r)
+        return
     run_ = Run(case["spec"], make_schedule(case["schedule"]), max_steps=bound_for(0)).drain()
     judge(c, case["spec"], run_, case["schedule"], ["regression"])
 
